@@ -44,6 +44,7 @@ func plans(id, tier string) (Plan, bool) {
 		for _, t := range []string{"0.7", "0.8", "0.9", "1"} {
 			jobs = append(jobs, Job{Pkg: pkgV2, Harness: "c01_small", Params: "t=" + t, Shards: pick(1, 3)})
 		}
+		jobs = append(jobs, Job{Pkg: pkgV2, Harness: "c01_small", Params: "t=0.8;replace=yes", Shards: pick(1, 3)})
 		for _, t := range ts[:pick(2, 4)] {
 			jobs = append(jobs, Job{Pkg: pkgV2, Harness: "c01_sequences", Params: "t=" + t, Shards: pick(2, 8)})
 		}
@@ -58,6 +59,7 @@ func plans(id, tier string) (Plan, bool) {
 			// the same scope over a vocabulary of 2- and 3-byte letters, and with the vocabulary's token
 			// ids placed around the UTF-16 surrogate range and U+FFFD (ids are handed to go-diff as runes)
 			{Pkg: pkgV2, Harness: "c02_small", Params: fmt.Sprintf("vocab=accented;maxlen=%d", pick(5, 8)), Shards: pick(8, 16)},
+			{Pkg: pkgV2, Harness: "c02_small", Params: fmt.Sprintf("replace=yes;maxlen=%d", pick(5, 7)), Shards: pick(4, 16)},
 			{Pkg: pkgV2, Harness: "c02_small", Params: fmt.Sprintf("dictoffset=55294;corpora=%d;maxlen=%d", pick(16, 16), pick(6, 8)), Shards: pick(4, 16)},
 			{Pkg: pkgV2, Harness: "c02_small", Params: fmt.Sprintf("dictoffset=57341;corpora=%d;maxlen=%d", pick(16, 16), pick(6, 8)), Shards: pick(4, 16)},
 			{Pkg: pkgV2, Harness: "c02_small", Params: fmt.Sprintf("dictoffset=65531;corpora=%d;maxlen=%d", pick(16, 16), pick(6, 8)), Shards: pick(4, 16)},
@@ -68,6 +70,7 @@ func plans(id, tier string) (Plan, bool) {
 		return Plan{Level: "exploration", Jobs: []Job{
 			{Pkg: pkgV2, Harness: "c03_small", Shards: pick(6, 16)},
 			{Pkg: pkgV2, Harness: "c03_small", Params: fmt.Sprintf("vocab=accented;maxlen=%d", pick(5, 6)), Shards: pick(4, 16)},
+			{Pkg: pkgV2, Harness: "c03_small", Params: fmt.Sprintf("replace=yes;maxlen=%d", pick(4, 6)), Shards: pick(4, 16)},
 			{Pkg: pkgV2, Harness: "c03_corpus", Params: "t=0.8", Shards: pick(10, 16)},
 			{Pkg: pkgV2, Harness: "c03_corpus", Params: "t=0.8;families=window;split=4", Shards: 16},
 			{Pkg: pkgV2, Harness: "c03_corpus", Params: "t=0.5;families=" + map[bool]string{false: "exact", true: "exact,edit1,truncate,scenario;ndocs=16"}[th], Shards: pick(6, 16)},
@@ -82,6 +85,7 @@ func plans(id, tier string) (Plan, bool) {
 			{Pkg: pkgV2, Harness: "c04_history", Shards: pick(4, 12)},
 			{Pkg: pkgV2, Harness: "c04_history", Params: "trace=wildcard", Shards: pick(4, 12)},
 			{Pkg: pkgV2, Harness: "c04_config", Shards: pick(4, 8)},
+			{Pkg: pkgV2, Harness: "c04_dictwords", Shards: 8},
 			{Pkg: pkgV2, Harness: "c04_trace", Shards: pick(4, 8)},
 			{Pkg: pkgV2, Harness: "c04_processes", Shards: 1, MaxProcs: 4},
 		}}, true
